@@ -1,4 +1,4 @@
-import MlodaVerif.Lemmas.ChainResolve
+import MlodaVerif.Lemmas.ChainRender
 import MlodaVerif.Model.Config
 /-! # C16 - name-chained, option-configured and JSON-configured features are equivalent
 
@@ -10,34 +10,6 @@ All theorems quantify over *every* well-formed chain (any depth, any source name
 bounded.  Where mloda violates the property the full statement is kept in a comment, a `_partial` theorem is proved under
 the decidable hypothesis that excludes the defect, and a `_witness` theorem proves the failure on a concrete input. -/
 open Chain Config Gen.Chain
-
-/-! ## rendering facts -/
-
-theorem Chain.render_step (c : Chain) (op : Op) : (Chain.step c op).render = c.render ++ chainSep ++ op.suffix := rfl
-
-theorem Chain.wfU_render (c : Chain) (h : c.wfU = true) : c.render ≠ [] ∧ ∀ ch ∈ c.render, ch ≠ '&' := by
-  induction c with
-  | src ns =>
-    match ns, h with
-    | [n], h =>
-      obtain ⟨h1, _, h3, _⟩ := srcOk_elim (by simpa [Chain.wfU] using h)
-      exact ⟨by simpa [Chain.render, joinWith] using h1, by simpa [Chain.render, joinWith] using h3⟩
-    | [], h => simp [Chain.wfU] at h
-    | _ :: _ :: _, h => simp [Chain.wfU] at h
-  | step c op ih =>
-    simp only [Chain.wfU, Bool.and_eq_true] at h
-    obtain ⟨⟨hc, hok⟩, _⟩ := h
-    obtain ⟨g, _, _, hf⟩ := sufFacts_of_ok op hok
-    obtain ⟨hne, hamp⟩ := ih hc
-    refine ⟨by simp [Chain.render_step, hne], ?_⟩
-    intro ch hch
-    simp only [Chain.render_step, List.mem_append] at hch
-    rcases hch with (hch | hch) | hch
-    · exact hamp ch hch
-    · have : chainSep = ['_', '_'] := by decide
-      rw [this] at hch
-      intro he; subst he; simp at hch
-    · exact hf.noAmp ch hch
 
 /-! ## left to right: the last suffix is the operation applied last -/
 
@@ -65,61 +37,6 @@ theorem C16.params_read_back (c : Chain) (op : Op) (hc : c.wfU = true) (hop : op
   exact ⟨g, hg, by rw [Chain.render_step]; exact hf.params _ (Chain.wfU_render c hc).1⟩
 
 /-! ## parse ∘ render = id, at any depth -/
-
-theorem mixin_single_count (op : Op) (g : Group) (hg : groupAt op.gid = some g) (har : op.arityOk 1 = true) (s : Str)
-    (hs : ∀ ch ∈ s, ch ≠ '&') : validateCount g (splitOn inputSep s).length = .ok () := by
-  have : splitOn inputSep s = [s] := splitOn_of_not_mem _ _ (by simpa [inputSep] using hs)
-  rw [this]
-  exact validateCount_of_arity g 1 (arityOk_elim hg har)
-
-theorem parse_render_unary (c : Chain) (h : c.wfU = true) : ∀ fuel, c.depth < fuel → parseAll fuel c.render = some c := by
-  induction c with
-  | src ns =>
-    intro fuel hf
-    match ns, h with
-    | [n], h =>
-      obtain ⟨_, h2, _, _⟩ := srcOk_elim (by simpa [Chain.wfU] using h)
-      cases fuel with
-      | zero => simp [Chain.depth] at hf
-      | succ f => simpa [parseAll, Chain.render, joinWith] using resolveFeat_leaf f n h2
-    | [], h => simp [Chain.wfU] at h
-    | _ :: _ :: _, h => simp [Chain.wfU] at h
-  | step c op ih =>
-    intro fuel hf
-    simp only [Chain.wfU, Bool.and_eq_true] at h
-    obtain ⟨⟨hc, hok⟩, har⟩ := h
-    obtain ⟨hne, hamp⟩ := Chain.wfU_render c hc
-    cases fuel with
-    | zero => simp [Chain.depth] at hf
-    | succ f =>
-      have hdf : c.depth < f := by simp [Chain.depth] at hf; omega
-      obtain ⟨g, hg, hstep⟩ := resolveStep_rendered op hok c.render hne
-        (fun g' hg' _ => mixin_single_count op g' hg' har c.render hamp)
-        (fun g' hg' hk => by
-          -- a two-input group cannot have arity 1
-          have hmod : modelled g' = true := by
-            obtain ⟨g'', hg'', hm'', _⟩ := sufFacts_of_ok op hok
-            rw [hg'] at hg''; cases hg''; exact hm''
-          rcases kinds (mem_modelledGroups (groupAt_mem hg') hmod) with ⟨hk', _⟩ | ⟨hk', _, _⟩ | ⟨_, hmin, _⟩
-          · rw [hk] at hk'; exact absurd hk' (by decide)
-          · rw [hk] at hk'; exact absurd hk' (by decide)
-          · have := arityOk_elim hg' har
-            simp [hmin] at this)
-      have hmain : (nameInputs g c.render).main = [mkFeat c.render] := by
-        have hmod : modelled g = true := by
-          obtain ⟨g'', hg'', hm'', _⟩ := sufFacts_of_ok op hok
-          rw [hg] at hg''; cases hg''; exact hm''
-        rcases kinds (mem_modelledGroups (groupAt_mem hg) hmod) with ⟨hk, _⟩ | ⟨hk, _, _⟩ | ⟨hk, hmin, _⟩
-        · have : splitOn inputSep c.render = [c.render] := splitOn_of_not_mem _ _ (by simpa [inputSep] using hamp)
-          simp [nameInputs, hk, this, dedupe_single]
-        · have hne1 : (twName == mixinName) = false := by decide
-          simp [nameInputs, hk, hne1]
-        · have := arityOk_elim hg har
-          simp [hmin] at this
-      have ih' := ih hc f hdf
-      simp only [parseAll] at ih' ⊢
-      rw [Chain.render_step]
-      simp only [resolveFeat, featName_mkFeat, featOpts_mkFeat, hstep, hmain, ih', Option.map_some]
 
 /-- **parse_render.** Resolving the rendered name of any well-formed chain - a unary spine of any depth, or one
 multi-input operation over its `&`-joined sources - returns exactly that chain: the groups in order, their parameters
@@ -245,8 +162,6 @@ theorem C16.count_violation_rejected (op : Op) (hop : op.ok = true) (g : Group) 
 
 /-! ## `~` : sub-columns -/
 
-theorem columnSep_eq : columnSep = '~' := by decide
-
 /-- the loader's `name~index` is undone by `get_column_base_feature` for every `~`-free name (so also for every rendered
 chain name) and every index -/
 theorem C16.column_base_roundtrip (name idx : Str) (h : ∀ c ∈ name, c ≠ '~') : columnBase (withColumnIndex name idx) = name := by
@@ -297,3 +212,163 @@ example :
 
 /-- the first suffix is *not* the one applied last: reversing the suffix order gives a different chain -/
 example : parseAll 4 "x__sum_aggr__mean_imputed".toList ≠ parseAll 4 "x__mean_imputed__sum_aggr".toList := by decide
+
+/-! ## JSON configuration -/
+
+/-- **malformed_rejected (JSON, what the loader checks).** Whatever else a document contains: if it is not an array, or
+some item is neither a string nor an object, or an object has a key outside {name, options, in_features, group_options,
+context_options, column_index}, or lacks `name` - loading raises. -/
+theorem C16.json_malformed_rejected (fuel : Nat) (data : PV) :
+    ((∀ l, data ≠ .list l) → ∃ e, loadFeaturesFuel fuel data = .error e) ∧
+    (∀ l item, data = .list l → item ∈ l → itemShapeChecked item = false → ∃ e, loadFeaturesFuel fuel data = .error e) := by
+  constructor
+  · intro h
+    cases data with
+    | list l => exact absurd rfl (h l)
+    | _ => exact ⟨_, rfl⟩
+  · intro l item hd hmem hbad
+    subst hd
+    have hitem : ∃ e, parseItem item = .error e := by
+      cases item with
+      | str s => simp [itemShapeChecked] at hbad
+      | dict kvs =>
+        simp only [itemShapeChecked, Bool.and_eq_false_iff] at hbad
+        simp only [parseItem, mkConfig]
+        rcases hbad with hb | hb
+        · have : (kvs.any fun kv => !allowedKeys.contains kv.1) = true := by
+            simp only [List.all_eq_false] at hb
+            obtain ⟨kv, hkv, hk⟩ := hb
+            exact List.any_eq_true.mpr ⟨kv, hkv, by simpa using hk⟩
+          exact ⟨Err.type "unexpected-keyword", by rw [if_pos this]; rfl⟩
+        · by_cases hany : (kvs.any fun kv => !allowedKeys.contains kv.1) = true
+          · exact ⟨Err.type "unexpected-keyword", by rw [if_pos hany]; rfl⟩
+          · have hn : lookup kName kvs = none := by
+              cases hl : lookup kName kvs with
+              | none => rfl
+              | some v => simp [hl] at hb
+            exact ⟨Err.type "missing-name", by rw [if_neg hany, hn]; rfl⟩
+      | _ => exact ⟨_, rfl⟩
+    obtain ⟨e, he⟩ := hitem
+    have hmap : ∃ e', l.mapM parseItem = .error e' := by
+      clear hbad
+      induction l with
+      | nil => simp at hmem
+      | cons x r ih =>
+        rw [List.mapM_cons]
+        cases hx : parseItem x with
+        | error e1 => exact ⟨e1, rfl⟩
+        | ok y =>
+          rcases List.mem_cons.mp hmem with rfl | hr
+          · rw [he] at hx; cases hx
+          · obtain ⟨e', he'⟩ := ih hr
+            exact ⟨e', by simp [bind, Except.bind, he']⟩
+    obtain ⟨e', he'⟩ := hmap
+    exact ⟨e', by simp [loadFeaturesFuel, parseJson, he', bind, Except.bind]⟩
+
+/-- FULL STATEMENT (false): "every document that is invalid against the published `feature_config_schema()` is rejected".
+The dataclass validates no types: a string for `in_features` becomes the set of its characters, a number as `name` or a
+string as `column_index` is accepted. -/
+theorem C16.schema_invalid_accepted_witness :
+    let d1 : PV := .list [.dict [(kName, .str "a".toList), (kInFeatures, .str "abc".toList), (kContextOptions, .dict [("aggregation_type".toList, .str "sum".toList)])]]
+    let d2 : PV := .list [.dict [(kName, .int 5)]]
+    let d3 : PV := .list [.dict [(kName, .str "a".toList), (kColumnIndex, .str "1".toList)]]
+    schemaValid d1 = false ∧ schemaValid d2 = false ∧ schemaValid d3 = false ∧
+    (match loadFeatures d1 with
+     | .ok [.feat _ _ ctx] => (lookup kInFeatures ctx).map (fun v => v.eqv (.fset [.str ['a'], .str ['b'], .str ['c']])) == some true
+     | _ => false) = true ∧
+    (match loadFeatures d2 with | .ok [.feat (.int 5) _ _] => true | _ => false) = true ∧
+    (match loadFeatures d3 with | .ok [.feat (.str n) _ _] => n == "a~1".toList | _ => false) = true := by decide
+
+/-- **the JSON form with `context_options` loads to the options form**: for every feature name, every option dictionary
+without an `in_features` key and every non-empty list of input names, the loaded Feature has exactly those context
+options plus `in_features` = the frozenset of the names, and no group options -/
+theorem C16.json_ctx_form_loads (fuel : Nat) (nm : Str) (kv : List (Str × PV)) (ins : List Str) (hins : ins ≠ [])
+    (hkv : lookup kInFeatures kv = none) :
+    loadFeaturesFuel fuel (.list [.dict [(kName, .str nm), (kInFeatures, .list (ins.map PV.str)), (kContextOptions, .dict kv)]])
+      = .ok [.feat (.str nm) [] (kv ++ [(kInFeatures, .fset (dedupe (ins.map PV.str)))])] := by
+  have hall : (ins.map PV.str).all PV.hashable = true := by
+    simp [List.all_eq_true, PV.hashable]
+  have htr : (PV.list (ins.map PV.str)).truthy = true := by
+    cases ins with
+    | nil => exact absurd rfl hins
+    | cons a r => simp [PV.truthy]
+  have hset : ∀ (v : PV), setKey kInFeatures v kv = kv ++ [(kInFeatures, v)] := by
+    intro v
+    induction kv with
+    | nil => rfl
+    | cons x r ih =>
+      obtain ⟨k, w⟩ := x
+      simp only [lookup] at hkv
+      split at hkv
+      · simp at hkv
+      · rename_i hne
+        have hne' : (kInFeatures == k) = false := by simpa using hne
+        simp [setKey, hne', ih hkv]
+  have hk1 : lookup kName [(kName, PV.str nm), (kInFeatures, .list (ins.map PV.str)), (kContextOptions, .dict kv)] = some (.str nm) := by
+    rfl
+  simp only [loadFeaturesFuel, parseJson, List.mapM_cons, List.mapM_nil, parseItem, mkConfig, bind, Except.bind, pure, Except.pure,
+    Except.map]
+  have hallowed : ([(kName, PV.str nm), (kInFeatures, PV.list (ins.map PV.str)), (kContextOptions, PV.dict kv)].any
+      fun kv => !allowedKeys.contains kv.1) = false := by
+    rfl
+  simp only [hallowed, hk1]
+  have hl2 : lookup kOptions [(kName, PV.str nm), (kInFeatures, .list (ins.map PV.str)), (kContextOptions, .dict kv)] = none := by
+    rfl
+  have hl3 : lookup kInFeatures [(kName, PV.str nm), (kInFeatures, .list (ins.map PV.str)), (kContextOptions, .dict kv)]
+      = some (.list (ins.map PV.str)) := by
+    rfl
+  have hl4 : lookup kGroupOptions [(kName, PV.str nm), (kInFeatures, .list (ins.map PV.str)), (kContextOptions, .dict kv)] = none := by
+    rfl
+  have hl5 : lookup kContextOptions [(kName, PV.str nm), (kInFeatures, .list (ins.map PV.str)), (kContextOptions, .dict kv)]
+      = some (.dict kv) := by
+    rfl
+  have hl6 : lookup kColumnIndex [(kName, PV.str nm), (kInFeatures, .list (ins.map PV.str)), (kContextOptions, .dict kv)] = none := by
+    rfl
+  simp only [hl2, hl3, hl4, hl5, hl6, Option.getD, PV.truthy, List.isEmpty_nil, Bool.not_true, Bool.false_and, Bool.false_eq_true, if_false,
+    loadItem, PV.isNone, Bool.not_false, Bool.or_true, if_true, htr, frozensetOf, hall, mkFeature, hasDuplicateKey, List.any_nil,
+    bind, Except.bind, pure, Except.pure]
+  cases kv with
+  | nil =>
+    simp [loadItem, PV.isNone, PV.truthy, frozensetOf, hall, mkFeature, hasDuplicateKey, setKey, bind, Except.bind, pure,
+      Except.pure, Functor.map, Except.map, hins]
+  | cons x r =>
+    simp [loadItem, PV.isNone, PV.truthy, frozensetOf, hall, mkFeature, hasDuplicateKey, hset, bind, Except.bind, pure,
+      Except.pure, Functor.map, Except.map, hins]
+
+/-! ## options form: known defects (negation witnesses) -/
+
+/-- FULL STATEMENT (false): "the str, list, frozenset and Feature spellings of `in_features` resolve alike".
+A Python list (or set) makes `_process_found_property_value` raise TypeError (`frozenset([value])`), which
+`match_feature_group_criteria` does not catch; the other spellings match and give the same single input. -/
+theorem C16.list_spelling_witness :
+    (match matchCriteria gAggregatedFeatureGroup "a1".toList (wAggOpts (.list [.str "x".toList])) with
+     | .error (.type _) => true | _ => false) = true ∧
+    (match matchCriteria gAggregatedFeatureGroup "a1".toList (wAggOpts (.set [.str "x".toList])) with
+     | .error (.type _) => true | _ => false) = true ∧
+    ([PV.str "x".toList, .fset [.str "x".toList], mkFeat "x".toList, .fset [mkFeat "x".toList]].all fun v =>
+      (match matchCriteria gAggregatedFeatureGroup "a1".toList (wAggOpts v) with | .ok true => true | _ => false) &&
+      (match inputFeatures gAggregatedFeatureGroup (wAggOpts v) "a1".toList with
+       | .ok i => i.main.map featName? == [some "x".toList] | _ => false)) = true := by decide
+
+/-- FULL STATEMENT (false): "an option-configured chain resolves like its chained name".
+Two consecutive levels that set the same option key differently (median imputation of a bfill imputation) are rejected by
+the engine's option merge, although each level on its own resolves and the name `x__bfill_imputed__median_imputed` does. -/
+theorem C16.same_key_levels_witness :
+    let f := wLevel "p1" "imputation_method" "median" (wLevel "p0" "imputation_method" "bfill" (.str "x".toList))
+    let c : Chain := .step (.step (.src ["x".toList]) ⟨6, [.s "bfill".toList]⟩) ⟨6, [.s "median".toList]⟩
+    resolveFeatProp 9 f = none ∧ resolveFeat 9 f = some c ∧ parseAll 9 c.render = some c := by decide
+
+/-- FULL STATEMENT (false): "the nested JSON form (`options.in_features = {name, options}`) resolves like the name".
+The loader turns it into nested Features with *group* options; the engine merges a consumer's group options into its
+input feature, which is then claimed by two groups. -/
+theorem C16.nested_group_options_witness :
+    let doc : PV := .list [.dict [(kName, .str "agg2".toList), (kOptions, .dict [("aggregation_type".toList, .str "sum".toList),
+      (kInFeatures, .dict [(kName, .str "imp1".toList), (kOptions, .dict [("imputation_method".toList, .str "mean".toList),
+        (kInFeatures, .str "x".toList)])])])]]
+    let f := wLevelG "agg2" "aggregation_type" "sum" (wLevelG "imp1" "imputation_method" "mean" (.str "x".toList))
+    let c : Chain := .step (.step (.src ["x".toList]) ⟨6, [.s "mean".toList]⟩) ⟨0, [.s "sum".toList]⟩
+    (match loadFeatures doc with | .ok [g] => g.eqv f | _ => false) = true ∧
+    resolveFeat 9 f = some c ∧ resolveFeatProp 9 f = none ∧
+    (match matchingGroups "imp1".toList ⟨[("imputation_method".toList, .str "mean".toList), (kInFeatures, .str "x".toList),
+        ("aggregation_type".toList, .str "sum".toList)], []⟩ with
+     | .ok l => l == [0, 6] | _ => false) = true := by decide
